@@ -306,8 +306,6 @@ def run(ctx: Ctx) -> Outcome:
     rows = data["rows"]
     classes = {gen_pods.qual(c): c for c in gen_pods.model_classes()}
     out.extra["table"] = {"rows": len(rows), "unique_descriptors": data["unique"], "classes": len({r["cls"] for r in rows})}
-    out.table_obligations = 0
-
     req: list[dict] = []
     handlers: list = []  # per request: callable(answer)
 
@@ -472,6 +470,16 @@ def run(ctx: Ctx) -> Outcome:
             o._element.set(k, v)
         return o
 
+    sibling_slots: dict[str, list[str]] = {}
+    for r in rows:
+        sibling_slots.setdefault(r["cls"], []).append(r["pyname"])
+
+    def safe_get(o, n):
+        try:
+            return repr(getattr(o, n))
+        except Exception as e:
+            return f"exc:{type(e).__name__}"
+
     stats = {"valid": 0, "invalid": 0, "elided": 0, "stored": 0, "rejected": 0, "readonly": 0}
 
     def one_case(ri: int, r: dict, label: str, v, init: list[tuple[str, str]], use_del: bool = False, xhtml: bool = False):
@@ -502,6 +510,8 @@ def run(ctx: Ctx) -> Outcome:
         except Exception as e:
             before = ("exc", exc_name(e, kind))
         snap = list(obj._element.attrib.items())
+        siblings = sibling_slots[r["cls"]]
+        sib_before = [safe_get(obj, n) for n in siblings if n != name]
         try:
             if use_del:
                 delattr(obj, name)
@@ -511,6 +521,7 @@ def run(ctx: Ctx) -> Outcome:
         except Exception as e:
             res = ("exc", exc_name(e, kind))
         now = list(obj._element.attrib.items())
+        sib_after = [safe_get(obj, n) for n in siblings if n != name]
         after = None
         if res[0] == "ok":
             try:
@@ -533,6 +544,9 @@ def run(ctx: Ctx) -> Outcome:
             if now != snap:
                 out.find(f"pod.set|rejected-but-modified|{sig_cls}", f"{r['cls']}.{name} = {v!r} raised {res[1]} but changed the XML "
                          f"{snap} -> {now}", replay)
+        if sib_after != sib_before:
+            out.find(f"pod.set|other-slot-changed|{kind}", f"assigning {r['cls']}.{name} = {v!r} changed another typed attribute of the object: "
+                     f"{[n for n, a, b in zip([n for n in siblings if n != name], sib_before, sib_after) if a != b]}", replay)
         if not r["writable"] and present:
             stats["readonly"] += 1
             if res[0] != "exc" or res[1] != "TypeError" or now != snap:
@@ -813,7 +827,17 @@ def run(ctx: Ctx) -> Outcome:
             h(ans)
     out.extra["law_samples"] = laws
     out.extra["case_stats"] = stats
-    out.table_obligations = 0
+    # kernel-checked obligations of the generated table files (counted from the files that were just built)
+    gen_dir = common.LEAN / "Capella" / "Gen"
+    out.table_obligations = sum(f.read_text().count(":= by decide +kernel") for f in gen_dir.glob("Pods*.lean"))
+    out.extra["source_fingerprints"] = {
+        **common.source_fingerprint("capellambse/model/_pods.py", [
+            "BasePOD.__get__", "BasePOD.__set__", "BasePOD.__delete__", "StringPOD", "HTMLStringPOD", "BoolPOD", "IntPOD", "FloatPOD",
+            "DatetimePOD", "EnumPOD"]),
+        **common.source_fingerprint("capellambse/helpers.py", ["repair_html", "process_html_fragments", "escape_linked_text", "unescape_linked_text"]),
+        **common.source_fingerprint("capellambse/model/_descriptors.py", ["_Specification"]),
+        **common.source_fingerprint("capellambse/extensions/pvmt/_config.py", ["PVMTDescriptionProperty"]),
+    }
     return out
 
 
@@ -1020,6 +1044,8 @@ def live_part(ctx, out, capellambse, helpers, pvmt_config, xml_legal, monitor_ex
                         replay = {"kind": "live-readonly", "class": clsname, "pyname": name, "present": present}
                         if present and (raised != "TypeError" or dict(obj._element.attrib) != snap):
                             out.find(f"pod.set|readonly-present-not-rejected|{kind}", f"live {clsname}.{name} accepted {v!r}", replay)
+                            obj._element.attrib.clear()
+                            obj._element.attrib.update(snap)
                         if not present and raised is None and dict(obj._element.attrib) != snap:
                             out.find("pod.set|readonly-absent-accepts-write", f"read-only {cls.__name__}.{name} of a loaded {clsname} accepts a write while its "
                                      f"XML attribute {d.attribute!r} is absent (write-once): {v!r} -> {obj._element.get(d.attribute)!r}", replay)
@@ -1042,8 +1068,14 @@ def live_part(ctx, out, capellambse, helpers, pvmt_config, xml_legal, monitor_ex
                                  {"kind": "live", "class": clsname, "pyname": name, "value": repr(v)[:200]})
                     planned.append((obj.uuid, name, kind, label, v, want, obj._element.get(d.attribute)))
                     out.case(("live", rd, obj.uuid, name, repr(v)[:60]), nontrivial=not is_default)
-        model.save()
-        model2 = capellambse.MelodyModel(str(dst / "Melody Model Test.aird"))
+        try:
+            model.save()
+            model2 = capellambse.MelodyModel(str(dst / "Melody Model Test.aird"))
+        except Exception as e:
+            out.find("pod.reload|save-or-reload-failed", f"after assigning valid values to {len(planned)} typed attributes: {type(e).__name__}: {str(e)[:200]}",
+                     {"kind": "live-reload", "round": rd})
+            shutil.rmtree(dst, ignore_errors=True)
+            continue
         for uuid, name, kind, label, v, want, xml in planned:
             o2 = model2.by_uuid(uuid)
             d = getattr(type(o2), name)
